@@ -1697,7 +1697,11 @@ class Tensor:
         # We must do this here up front since we need to consume information
         # about ``self``
         self.null_grad(_clear_view_info=True)
-        if self._base is not None and not self._base._view_children:
+        if self._base is not None and not _dup.is_view_child(
+            base=self._base, tensor=self
+        ):
+            # `self` is a disconnected view: the graph that connected it to its
+            # base was cleared, the base no longer records it as a view
             self._base = None
 
         graph = _dup.DuplicatingGraph(self if self.base is None else self.base)
